@@ -71,15 +71,40 @@ def gscript(x: FLOAT[None]) -> FLOAT[None]:
 '''
 
 
+# a script whose MODEL needs opset imports that the function itself does not: it only calls gfun (domain lib.a), which calls hfun (lib.b), which
+# uses standard operators; repeated to_function_proto()/to_model_proto() calls must not leak the model's imports into the function
+CHAIN_SCRIPT = '''
+from onnxscript.values import Opset
+liba = Opset("lib.a", 1)
+libb = Opset("lib.b", 2)
+
+@script(libb)
+def hfun(x: FLOAT[None]) -> FLOAT[None]:
+    return op.Abs(x) + CCONST
+
+@script(liba)
+def gfun(x: FLOAT[None]) -> FLOAT[None]:
+    return GBODY
+
+@script(default_opset=op)
+def ffun(x: FLOAT[None]) -> FLOAT[None]:
+    return FBODY
+'''
+
+
 @st.composite
 def targets(draw, focus=None):
-    kinds = ["script", "script", "script_repeat", "script_nearmiss", "optimize", "optimize", "optimize_ir", "rewrite", "fold", "convert", "mutate_globals"]
+    kinds = ["script", "script", "script_repeat", "script_nearmiss", "optimize", "optimize", "optimize_ir", "rewrite", "fold", "convert", "mutate_globals", "script_chain"]
     if focus is not None:
         kinds = ["optimize", "optimize_ir", "rewrite", "rewrite"]
     kind = draw(st.sampled_from(kinds))
     if kind == "mutate_globals":
         return {"kind": "script_mutate_globals", "source": GLOBAL_SCRIPT, "name": "gscript", "opset": 18,
                 "globals": {"GCONST": draw(st.sampled_from([0.5, 2.0])), "PERM": [0, 1]}, "mutate": {"GCONST": 7.0, "PERM": [1, 0]}, "fails": False}
+    if kind == "script_chain":
+        src = (CHAIN_SCRIPT.replace("CCONST", draw(st.sampled_from(["1.0", "0.5"]))).replace("GBODY", draw(st.sampled_from(["hfun(x)", "hfun(hfun(x))", "op.Neg(hfun(x))"])))
+               .replace("FBODY", draw(st.sampled_from(["gfun(x)", "gfun(x)", "gfun(gfun(x))", "hfun(gfun(x))", "op.Relu(gfun(x))"]))))
+        return {"kind": "script_repeat", "source": src, "name": "ffun", "opset": 18, "fails": False, "chain": True}
     if kind.startswith("script"):
         gp = draw(scriptgen.programs(max_stmts=5))
         if kind == "script_nearmiss":
@@ -110,7 +135,7 @@ def targets(draw, focus=None):
 def key_of(op):
     import hashlib
 
-    return hashlib.sha1(json.dumps({k: v for k, v in op.items() if k not in ("fails", "planted", "control_flow", "focus")}, sort_keys=True).encode()).hexdigest()[:16]
+    return hashlib.sha1(json.dumps({k: v for k, v in op.items() if k not in ("fails", "planted", "control_flow", "focus", "chain")}, sort_keys=True).encode()).hexdigest()[:16]
 
 
 def compare_runs(tg, a, b):
@@ -155,6 +180,8 @@ def run_shard(spec):
             classes = ["target:" + t["kind"], "hashseedB:%s" % hs_b] + (["single_rule_batch"] if t.get("focus") else []) + (["history:same_model_other_opsets"] if i in reopset else [])
             if t.get("fails"):
                 classes.append("failing_target")
+            if t.get("chain"):
+                classes.append("target:script_chain(model imports != function imports)")
             if ra.get("d", "").startswith("EXC"):
                 classes.append("result:exception")
             col.case(key_of(t), nontrivial, classes, sample={k: (v if k != "model" else "<model>") for k, v in t.items()} if i == 0 else None)
